@@ -17,7 +17,8 @@ Next == /\ l <= Len(Trace)
         /\ LET e == Trace[l] IN
            CASE e.ev = "url" -> IF ParseOK(e.req, e.out) THEN TRUE ELSE PrintT(<<"REJ", l, "C07", DevUrl(e)>>)
              [] e.ev = "chain" -> IF e.ret = "ok" /\ ChainOK(e.r) THEN TRUE
-                                  ELSE PrintT(<<"REJ", l, "C08", IF Dev_StringMalformedForEmptyFieldList(e) THEN "Dev_StringMalformedForEmptyFieldList"
+                                  ELSE PrintT(<<"REJ", l, "C08", IF Dev_StringDropsOtherPageArguments(e) THEN "Dev_StringDropsOtherPageArguments"
+                                                             ELSE IF Dev_StringMalformedForEmptyFieldList(e) THEN "Dev_StringMalformedForEmptyFieldList"
                                                              ELSE IF Dev_LabelNotJSONEncoded(e) THEN "Dev_LabelNotJSONEncoded"
                                                             ELSE IF Dev_StringDoesNotEscape(e) THEN "Dev_StringDoesNotEscape" ELSE "NONE">>)
              [] OTHER -> PrintT(<<"REJ", l, "C07", "unknown-event">>)
